@@ -381,6 +381,9 @@ def drive(r, spec, respond="random", faults=None, max_steps=80):
                     rects = [rc]
                 elif getattr(spec, "resizes", False) and r.random() < .25:
                     nw, nh = r.choice([6, 10, 20, 30]), r.choice([6, 10, 16])
+                    scr_ = getattr(v.proto, "screen", None)
+                    if scr_ is not None and tuple(scr_.size) != tuple(spec.size) and r.random() < .5:
+                        nw, nh = scr_.size          # the server announces exactly the size the client's image happens to have
                     rects = [enc_desktop(nw, nh)]
                     spec.size = (nw, nh)
                     if r.random() < .6:
